@@ -17,8 +17,8 @@ from ginsim import cfgtext, probes, shrink, vfs, world
 
 ID = 'C16'
 LEVEL = 'fault_enumeration'
-QUICK_RUNS = 1500
-THOROUGH_RUNS = 30000
+QUICK_RUNS = 3000
+THOROUGH_RUNS = 60000
 SHRINK_BUDGET = 200
 RULE = ('run i draws from Random("<seed>/C16/<i>") an include tree (1-4 files, '
         'depth <=3, 3-14 statement units: bindings, scoped bindings, macros, '
